@@ -103,6 +103,7 @@ class Executor:
         self.qualname = qualname
         self.fn = fn
         self.c = contract
+        self.inlined = set()
         self.reg = registry          # name -> Contract
         self.obls = []
         self.decls = {}              # const name -> sort
@@ -615,8 +616,67 @@ class Executor:
 
     # ------------------------------------------------------------------ loops
     def loop_spec(self, s):
+        if id(s) not in self.loop_ord:
+            return -1, None         # a loop of an inlined helper: no invariant (constant ranges are unrolled)
         n = self.loop_ord[id(s)]
         return n, self.c.loops.get(n)
+
+    # ------------------------------------------------------------------ inlining of helpers without a contract
+    def try_inline(self, e, qualname, args, st):
+        """A call of a function of the module that has no sidecar contract (typically a private helper extracted by a refactoring):
+        its body is executed in place of the call - the caller's obligations are then decided about caller + helper together.
+        Only for plain functions: no generator, no recursion, positional parameters (constant defaults), nesting <= 3.
+        Returns the outcomes [(state, value | Exc)] or None when the helper is not inlinable."""
+        from . import core as _core
+        fdef = _core.module(self.modname).functions.get(qualname)
+        if fdef is None or getattr(self, '_inline_depth', 0) >= 3:
+            return None
+        if fdef.decorator_list or fdef.args.vararg or fdef.args.kwarg or fdef.args.kwonlyargs or (isinstance(e, ast.Call) and e.keywords):
+            return None
+        own = qualname.split('.')[-1]
+        for n in ast.walk(fdef):
+            if isinstance(n, (ast.Yield, ast.YieldFrom, ast.Lambda, ast.Global, ast.Nonlocal, ast.AsyncFunctionDef)):
+                return None
+            if isinstance(n, ast.FunctionDef) and n is not fdef:
+                return None
+            if isinstance(n, ast.Call) and ((isinstance(n.func, ast.Name) and n.func.id == own)
+                                            or (isinstance(n.func, ast.Attribute) and n.func.attr == own)):
+                return None         # recursive
+        params = [a.arg for a in fdef.args.args]
+        defaults = fdef.args.defaults
+        vals = list(args)
+        if len(vals) > len(params):
+            return None
+        for i in range(len(vals), len(params)):
+            j = i - (len(params) - len(defaults))
+            if j < 0 or not isinstance(defaults[j], ast.Constant):
+                return None
+            d = self.ev_Constant(defaults[j], st)
+            vals.append(d[0][1])
+        saved_env, saved_fn = st.env, self.fn
+        outs = []
+
+        def leave(st2, v):
+            st2.env = dict(saved_env)
+            outs.append((st2, v))
+        body = fdef.body
+        if body and isinstance(body[0], ast.Expr) and isinstance(body[0].value, ast.Constant) and isinstance(body[0].value.value, str):
+            body = body[1:]
+        st_in = st.fork().tag('inline:' + own)
+        st_in.env = dict(zip(params, vals))
+
+        def bad(*_a):
+            raise OutOfSubset('break/continue outside a loop in an inlined helper', e)
+        self._inline_depth = getattr(self, '_inline_depth', 0) + 1
+        self.fn = fdef
+        try:
+            self.exec_block(body, st_in, Konts(normal=lambda s2: leave(s2, NONE), ret=lambda s2, v: leave(s2, v if v is not None else NONE),
+                                               brk=bad, cont=bad, exc=lambda s2, x: leave(s2, x)))
+        finally:
+            self._inline_depth -= 1
+            self.fn = saved_fn
+        self.inlined.add('%s.%s' % (self.modname, qualname))
+        return outs
 
     def assigned_names(self, stmts):
         out = set()
@@ -1545,6 +1605,9 @@ class Executor:
         cname = '%s.%s' % (self.modname, name)
         if cname in self.reg:
             return self.apply_contract(e, self.reg[cname], args, st)
+        r = self.try_inline(e, name, args, st)
+        if r is not None:
+            return r
         raise OutOfSubset('call of %s (no contract)' % name, e)
 
     def call_method(self, e, st):
@@ -1588,6 +1651,10 @@ class Executor:
                     if ('%s.%s' % (cls, meth)) not in mod.functions:
                         # the class has no such method: AttributeError unless the receiver is never of this class
                         self.oblige(st, 'safety.method_receiver.%s.not_%s' % (meth, cls), NOT('((_ is %s) %s)' % (ctor, base.e)), 'safety')
+                        continue
+                    r = self.try_inline(e, '%s.%s' % (cls, meth), [base] + args, st.fork().assume('((_ is %s) %s)' % (ctor, base.e)).tag(cls))
+                    if r is not None:
+                        outs.extend(r)
                         continue
                     raise OutOfSubset('no contract for %s' % cname, e)
                 b = st.fork().assume('((_ is %s) %s)' % (ctor, base.e)).tag(cls)
